@@ -948,10 +948,12 @@ class SyncObj(object):
                 self.__sendNextNodeIdx(node, nextNodeIdx=nextNodeIdx, success=True)
 
             # Install snapshot
-            elif serialized is not None:
-                if self.__serializer.setTransmissionData(serialized):
-                    self.__loadDumpFile(clearJournal=True)
-                    self.__sendNextNodeIdx(node, success=True)
+            else:
+                if not self.__serializer.setTransmissionData(serialized):
+                    # Incomplete snapshot - nothing in our log was verified, keep commit index
+                    return
+                self.__loadDumpFile(clearJournal=True)
+                self.__sendNextNodeIdx(node, success=True)
 
             if leaderCommitIndex > self.__raftCommitIndex:
                 self.__raftCommitIndex = min(leaderCommitIndex, self.__getCurrentLogIndex())
